@@ -1,4 +1,4 @@
-import BR.Model.AC
+import BR.Lemmas.AC
 import BR.Gen.Tables
 /-!
 # C11 — the action cache stores and serves only valid ActionResults, unchanged
@@ -10,41 +10,6 @@ JSON codecs are parameters (`unmarshal (marshal m) = m`); the correspondence exe
 -/
 namespace BR.Props.C11
 open BR.AC
-
-theorem firstErr_some_of_mem {α} (f : α → Option VErr) : ∀ (l : List α) (x : α), x ∈ l → (f x).isSome →
-    (firstErr f l).isSome := by
-  intro l
-  induction l with
-  | nil => intro x hx; cases hx
-  | cons y ys ih =>
-    intro x hx hf
-    unfold firstErr
-    cases hy : f y with
-    | some e => simp
-    | none =>
-      simp only
-      rcases (by simpa using hx : x = y ∨ x ∈ ys) with rfl | h
-      · rw [hy] at hf; cases hf
-      · exact ih x h hf
-
-theorem firstErr_none_iff {α} (f : α → Option VErr) (l : List α) : firstErr f l = none ↔ ∀ x ∈ l, f x = none := by
-  induction l with
-  | nil => simp [firstErr]
-  | cons y ys ih =>
-    unfold firstErr
-    cases hy : f y with
-    | some e => simp [hy]
-    | none => simp [hy, ih]
-
-theorem orElse_isSome_left {a b : Option VErr} (h : a.isSome) : (orElse a b).isSome := by
-  cases a with
-  | none => cases h
-  | some e => simp [orElse]
-
-theorem orElse_isSome_right {a b : Option VErr} (h : b.isSome) : (orElse a b).isSome := by
-  cases a with
-  | none => simpa [orElse] using h
-  | some e => simp [orElse]
 
 /-- **each kind of invalid field is rejected, wherever it occurs**: a nil / path-less / absolute /
 digest-less output file, a negative or malformed digest, a nil / absolute / tree-less output
